@@ -46,7 +46,7 @@ def gen_capi_ops(rng, cfg, nops, invalid_rate):
             g += ln + rng.choice([0, 1, 2, pf])
         total = off
         if rng.random() < invalid_rate:
-            kind = rng.choice(["past", "past-far", "at-last", "d0", "dorder", "gorder", "dbeyond", "overlap", "cont-multi"])
+            kind = rng.choice(["past", "past-far", "at-last", "d0", "dorder", "gorder", "dbeyond", "overlap", "overlap-late", "cont-multi"])
             if kind == "past" and cur > 0:
                 sh = G[0] - cur + 1
                 G = [x - sh for x in G]
@@ -69,6 +69,11 @@ def gen_capi_ops(rng, cfg, nops, invalid_rate):
                     D.append(total)
             elif kind == "overlap" and nb > 1:
                 G[1] = G[0] + (D[1] - D[0]) - 1
+            elif kind == "overlap-late" and nb > 2 and D[2] - D[1] >= 2:
+                G[1] = G[0] + (D[1] - D[0]) + 40
+                G[2] = G[1] + (D[2] - D[1]) - 1
+                for z in range(3, nb):
+                    G[z] = G[z - 1] + (D[z] - D[z - 1]) + 1
             elif kind == "cont-multi" and cfg.cont:
                 G.append(G[-1] + total + 3)
                 D.append(total - 1 if total > 1 else 0)
